@@ -224,6 +224,9 @@ func downstream(cmds []ast.Command, comments []*ast.Comment, r wproto.Req, resp 
 		e.Set("x", "a b")
 		e.Set("HOME", "/nonexistent")
 	}
+	// the second environment splits at a comma and at a byte that is not valid UTF-8
+	envs[1].Set("IFS", "\xff, ")
+	envs[1].Set("x", "\xff\xffa,b \xffc")
 	for wi, w := range words {
 		e := envs[wi%2]
 		if len(words) < 40 {
